@@ -302,7 +302,7 @@ func (u *Unit) newMap(st *State, mt *types.Map, prefix string) string {
 	hd := u.heapOf(st, kd)
 	st.heap[kd] = u.nameHeap(kd, fmt.Sprintf("(store %s %s ((as const (Array %s Bool)) false))", hd, r, ks))
 	hv := u.heapOf(st, kv)
-	st.heap[kv] = u.nameHeap(kv, fmt.Sprintf("(store %s %s ((as const (Array %s %s)) %s))", hv, r, ks, vs, u.w.zero(mt.Elem())))
+	st.heap[kv] = u.nameHeap(kv, fmt.Sprintf("(store %s %s %s)", hv, r, u.w.constArray(fmt.Sprintf("(Array %s %s)", ks, vs), vs, u.w.zero(mt.Elem()))))
 	hl := u.heapOf(st, kl)
 	st.heap[kl] = u.nameHeap(kl, fmt.Sprintf("(store %s %s 0)", hl, r))
 	return r
